@@ -13,7 +13,7 @@
    number of cells the frame had when the scope was formed: the reference evaluator only sees that prefix (lexical
    scoping), the Go code sees the whole map (a closure made while a dolist/dotimes/do* frame is still being filled
    later sees the cells added afterwards).  No definition in this file is mode-dependent except through the small
-   functions [store_red], [truthy], [or_step], [last_red], [locate_m], [short_args], [neg_count], [do_test_atom]:
+   functions [store_red], [truthy], [or_step], [last_red], [locate_m], [short_args], [neg_count]:
    they are the complete list of places where M and S differ.
 
    Side effects are calls of the harness-defined function (tr k e): evaluates e, appends k to the trace, returns
@@ -216,10 +216,6 @@ Definition short_args (m : mode) : out unit :=
 (* dotimes: the variable is finally bound to the count; the language says to the number of iterations *)
 Definition neg_count (m : mode) (n : Z) : out Z :=
   if (n <? 0)%Z then match m with Slip => Ok n | Ref => Ok 0%Z | Chk => Er EDev end else Ok n.
-(* do: an end test that is not a list form is never evaluated (the loop does not end) *)
-Definition is_atom (e : expr) : bool := match e with EConst _ | EVar _ => true | _ => false end.
-Definition do_test_atom (m : mode) : out bool :=          (* true = treat the test as always nil *)
-  match m with Slip => Ok true | Ref => Ok false | Chk => Er EDev end.
 
 (* ---------------------------------------------------------------------------------------------- built-ins *)
 Definition big : Z := 4611686018427387904%Z.             (* 2^62: beyond it fixnum arithmetic is C05's *)
@@ -590,14 +586,14 @@ Definition evalF (st : state) (sc : scope) (e : expr) : result :=
       match sc with
       | [] => (Er EMalformed, st)
       | (f, _) :: _ =>
-          bindo (if is_atom test then do_test_atom m else Ok false) st (fun never =>
-          bind (if never then (Ok false, st) else ev_test st sc test) (fun t st1 =>
+          (* the end test is evaluated whatever its shape (after the repair of setupDo: a variable or t too) *)
+          bind (ev_test st sc test) (fun t st1 =>
           if t then ev_seq st1 sc rs VNil
           else bind (ev_seq st1 sc es VNil) (fun _ st2 =>
                bind (if star then ev_steps_seq st2 sc f bs
                      else bind (ev_steps_par st2 sc bs) (fun xs st3 =>
                           (Ok tt, fold_left (fun s xv => bind_in s f (fst xv) (snd xv)) xs st3)))
-                    (fun _ st4 => ev st4 sc (EDoLoop star bs test rs es)))))
+                    (fun _ st4 => ev st4 sc (EDoLoop star bs test rs es))))
       end
   | EValues es => bind (ev_args st sc es) (fun vs st1 => (Ok (VValues vs), st1))
   | EMvb xs e es =>
